@@ -135,7 +135,7 @@ fn ar_cmd(a: &[&str]) -> String {
         ["seq", cap, ts @ ..] => {
             let bs: Vec<Vec<(usize, usize)>> = ts.iter().map(|t| entries(t)).collect();
             match fa::add_sequence(cap.parse().unwrap(), &bs) {
-                Ok(v) => v.iter().map(|(ok, n)| format!("{}:{}", if *ok { "a" } else { "r" }, n)).collect::<Vec<_>>().join(" "),
+                Ok(v) => v.iter().map(|(ok, n, rsv)| format!("{}:{}:{}", if *ok { "a" } else { "r" }, n, rsv)).collect::<Vec<_>>().join(" "),
                 Err(e) => format!("err:{}", e.replace(' ', "_")),
             }
         }
